@@ -104,6 +104,20 @@ Section Viewing.
     canvas_compose (w2v_mat position target basis_y inverse)
                    (ortho_mat_c (width / zoom) (height / zoom) zscale ztrans inverse)
                    (viewport_mat width height 0 0 inverse) inverse.
+  (* the composed projection matrix with its two z entries (row 2: scale entry, translation entry) given as they come out
+     of the code (binary64 constants for the default near/far, possibly already multiplied and rounded) *)
+  Definition ortho_mat_z (width height z22 z23 : F) (inverse : bool) : mat4 F :=
+    M4 (if inverse then width / 2 else 2 / width) 0 0 0
+       0 (if inverse then height / 2 else 2 / height) 0 0
+       0 0 z22 z23
+       0 0 0 1.
+  (* exact value of entry (2,3) of the composed matrix: forward the translate entry, inverse scale entry x translate entry *)
+  Definition ortho_z23 (near far : F) (inverse : bool) : F :=
+    if inverse then ortho_zscale near far true * ortho_ztrans near far true else ortho_ztrans near far false.
+  Definition canvas_mat_z (z22 z23 width height : F) (position target : vec3 F) (zoom : F) (inverse : bool) : mat4 F :=
+    canvas_compose (w2v_mat position target basis_y inverse)
+                   (ortho_mat_z (width / zoom) (height / zoom) z22 z23 inverse)
+                   (viewport_mat width height 0 0 inverse) inverse.
   Definition canvas_mat (width height : F) (position target : vec3 F) (zoom : F) (inverse : bool) : mat4 F :=
     canvas_mat_c (ortho_zscale default_near default_far inverse) (ortho_ztrans default_near default_far inverse)
                  width height position target zoom inverse.
